@@ -137,7 +137,22 @@ def package_L(ent, d, kT=1.0, **kw):
     calc = ent['calc']
     if len(calc.GFvalues) > 64: calc.clearcache()
     bF = calc.preene2betafree(kT, **d)
-    return tuple(np.array(x, dtype=float, copy=True) for x in calc.Lij(*bF, **kw))
+    return lij_bF(calc, bF, **kw)
+
+
+def lij_bF(calc, bF, **kw):
+    """Lij on the given free-energy arrays (the documented usage keeps and reuses them).  If the call changed its
+    argument arrays, a second call on the same (now changed) arrays is made: a different answer for 'the same
+    arrays' is reported (history dependence through the caller's data, C14 / C08)"""
+    before = [np.array(x, copy=True) for x in bF]
+    L = tuple(np.array(x, dtype=float, copy=True) for x in calc.Lij(*bF, **kw))
+    if any(not np.array_equal(a, np.asarray(b)) for a, b in zip(before, bF)):
+        L2 = tuple(np.array(x, dtype=float, copy=True) for x in calc.Lij(*bF, **kw))
+        sc = tscale(*L)
+        if any(np.abs(a - b).max() > 1e-12 * sc for a, b in zip(L, L2)):
+            raise AssertionError('Lij modified its argument arrays in place; calling it again with the same arrays changes the '
+                                 'result by {:.2e} (relative)'.format(max(float(np.abs(a - b).max()) for a, b in zip(L, L2)) / sc))
+    return L
 
 
 def model_L(ent, d, kT=1.0, gfunc=None):
